@@ -323,11 +323,20 @@ def extract():
     gsrc = src
     src = grammar_block(src)
     fe = rule_body(src, "full_expression")
-    if fe != norm("![_] { ast::ArithmeticExpr::Literal(0) } / _ e:expression() _ { e }"):
+    if fe == norm("![_] { ast::ArithmeticExpr::Literal(0) } / _ e:expression() _ { e }"):
+        blank_zero = False
+    elif fe == norm("_ ![_] { ast::ArithmeticExpr::Literal(0) } / _ e:expression() _ { e }"):
+        blank_zero = True
+    else:
         broken("full_expression changed shape: %r" % fe)
     lv = rule_body(src, "lvalue")
-    if lv != norm('name:variable_name() "[" index:expression() "]" { ast::ArithmeticTarget::ArrayElement(name.to_owned(), Box::new(index)) } / '
-                  'name:variable_name() { ast::ArithmeticTarget::Variable(name.to_owned()) }'):
+    lv_tail = (' { ast::ArithmeticTarget::ArrayElement(name.to_owned(), Box::new(index)) } / '
+               'name:variable_name() { ast::ArithmeticTarget::Variable(name.to_owned()) }')
+    if lv == norm('name:variable_name() "[" index:expression() "]"' + lv_tail):
+        subscript_ws = False
+    elif lv == norm('name:variable_name() "[" _ index:expression() _ "]"' + lv_tail):
+        subscript_ws = True
+    else:
         broken("lvalue changed shape: %r" % lv)
     vn = rule_body(src, "variable_name")
     mv = re.fullmatch(r"\$\(%s\(%s\*\)\)" % (cls, cls), vn)
@@ -340,21 +349,26 @@ def extract():
         broken("rule _ changed shape: %r" % ws)
     ws_class = parse_class(mw.group(1))
     ln = rule_body(src, "literal_number")
+    call = r'(i64::from_str_radix\(s, (\d+)\)\.or\(Err\("i64"\)\)|parse_shell_literal_number\(s, (\d+)\))'
     ml = re.fullmatch(
         r'radix:decimal_literal\(\) "(.)" s:\$\(%s\+\) \{\? parse_shell_literal_number\(s, radix\.cast_unsigned\(\)\) \} / '
-        r'"(.)" %s s:\$\(%s\*\) \{\? i64::from_str_radix\(s, (\d+)\)\.or\(Err\("i64"\)\) \} / '
-        r's:\$\("(.)" %s\*\) \{\? i64::from_str_radix\(s, (\d+)\)\.or\(Err\("i64"\)\) \} / '
-        r'decimal_literal\(\)' % (cls, cls, cls, cls), ln)
+        r'"(.)" %s s:\$\(%s\*\) \{\? %s \} / '
+        r's:\$\("(.)" %s\*\) \{\? %s \} / '
+        r'decimal_literal\(\)' % (cls, cls, cls, call, cls, call), ln)
     if not ml:
         broken("literal_number changed shape: %r" % ln)
-    radix_sep, radix_digits = ml.group(1), parse_class(ml.group(2))
-    hex_lead, hex_marker, hex_digits, hex_radix = ml.group(3), parse_class(ml.group(4)), parse_class(ml.group(5)), int(ml.group(6))
-    oct_lead, oct_digits, oct_radix = ml.group(7), parse_class(ml.group(8)), int(ml.group(9))
+    g = ml.groups()
+    radix_sep, radix_digits = g[0], parse_class(g[1])
+    hex_lead, hex_marker, hex_digits = g[2], parse_class(g[3]), parse_class(g[4])
+    hex_wrap, hex_radix = g[5].startswith("parse_shell"), int(g[6] or g[7])
+    oct_lead, oct_digits = g[8], parse_class(g[9])
+    oct_wrap, oct_radix = g[10].startswith("parse_shell"), int(g[11] or g[12])
     dl = rule_body(src, "decimal_literal")
-    md = re.fullmatch(r"s:\$\(%s %s\*\) \{\? s\.parse::<u64>\(\)\.map\(\|v\| v\.cast_signed\(\)\)\.or\(Err\(\"i64\"\)\) \}" % (cls, cls), dl)
+    md = re.fullmatch(r"s:\$\(%s %s\*\) \{\? (s\.parse::<u64>\(\)\.map\(\|v\| v\.cast_signed\(\)\)\.or\(Err\(\"i64\"\)\)|parse_shell_literal_number\(s, 10\)) \}" % (cls, cls), dl)
     if not md:
         broken("decimal_literal changed shape: %r" % dl)
     dec_first, dec_rest = parse_class(md.group(1)), parse_class(md.group(2))
+    dec_wrap = md.group(3).startswith("parse_shell")
     if not (2 <= hex_radix <= 36 and 2 <= oct_radix <= 36):
         broken("from_str_radix radix out of range")
     # ---- parse_shell_literal_number
@@ -431,7 +445,12 @@ def extract():
            "  radix_ci_max := %d;" % ci_max,
            "  dmap_ci := %s;" % dm(dmap_ci),
            "  dmap_cs := %s;" % dm(dmap_cs),
-           "  max_deref_depth := %d" % int(mc.group(1)),
+           "  max_deref_depth := %d;" % int(mc.group(1)),
+           "  hex_wrap := %s;" % str(hex_wrap).lower(),
+           "  oct_wrap := %s;" % str(oct_wrap).lower(),
+           "  dec_wrap := %s;" % str(dec_wrap).lower(),
+           "  blank_zero := %s;" % str(blank_zero).lower(),
+           "  subscript_ws := %s" % str(subscript_ws).lower(),
            "|}.", "",
            "Definition arith_table : table := ["]
     lv_txt = []
